@@ -2,6 +2,7 @@ SPECIFICATION Spec
 CONSTANTS
   Recorded = FALSE
   Fault = "none"
+  Lims <- LimOn
   Policies <- Both
   Ratings <- R123
   ConvStarts <- CS2
